@@ -322,6 +322,9 @@ MQ_DICT = ["dict", [[["lit", "module"], ["lit", 0]], [["lit", "qualname"], ["lit
 # a dict keyed by instances of a str subclass whose str() is not the key's own text (`class Color(str, Enum)`): the field names
 # of the TypedDict are the keys' characters
 LABEL_DICT = ["dict", [[["labelkey", "red"], ["lit", 0]], [["labelkey", "green"], ["lit", "s"]]]]
+# keys named like the parameters of the TypedDict constructor
+KW_DICT = ["dict", [[["lit", "total"], ["lit", 0]], [["lit", "cls"], ["lit", "s"]]]]
+KW_DICT2 = ["dict", [[["lit", "_fields"], ["lit", 0]], [["lit", "_typename"], ["lit", "s"]]]]
 
 
 def shard(ctx):
@@ -345,7 +348,7 @@ def shard(ctx):
             return test
 
         def f3(ctx):
-            @given(st.sampled_from(sorted(fx_basic.FUNCS)), st.lists(st.one_of(vals.values(2), vals.values(2), st.just(MQ_DICT), st.just(["list", [MQ_DICT]]), st.just(LABEL_DICT)), min_size=1, max_size=4), st.sampled_from([0, 2, 5]),
+            @given(st.sampled_from(sorted(fx_basic.FUNCS)), st.lists(st.one_of(vals.values(2), vals.values(2), st.just(MQ_DICT), st.just(["list", [MQ_DICT]]), st.just(LABEL_DICT), st.just(KW_DICT), st.just(KW_DICT2)), min_size=1, max_size=4), st.sampled_from([0, 2, 5]),
                    st.sampled_from(RY), st.sampled_from(RY))
             def test(fname, argspecs, k, r, y):
                 do_trace(ctx, fname, argspecs, k, r, y, tmpdir)
@@ -383,7 +386,7 @@ def shard(ctx):
                     ctx.record_violation(v.signature, v.spec, v.message)
                 for r in RY:
                     for y in RY:
-                        for last in (["dict", [[["lit", "a"], ["inst", "Outer.Inner"]]]], ["inst", "Registry"], ["cls", "Registry"], ["special", "func"], MQ_DICT, LABEL_DICT):
+                        for last in (["dict", [[["lit", "a"], ["inst", "Outer.Inner"]]]], ["inst", "Registry"], ["cls", "Registry"], ["special", "func"], MQ_DICT, LABEL_DICT, KW_DICT):
                             try:
                                 do_trace(ctx, fname, [["lit", 0], last], 2, r, y, tmpdir)
                             except core.Violation as v:
